@@ -3,5 +3,6 @@
   (under construction: the theorems are added as the proofs in Proofs/T2Data*.lean land)
 -/
 import PyTough.Model.T2Data
+open Model Model.T2
 namespace Props.C01
 end Props.C01
